@@ -51,7 +51,8 @@ def run(prog, rep):
                     for x in sorted(region):
                         t = body.term(x)
                         if t["k"] == "call" and is_callee(t, r"SerializeMap::serialize_entry$"):
-                            entries.append((canon(strip(tr.operand(t["args"][1]))), canon(strip(tr.operand(t["args"][2])))))
+                            raw = canon(tr.operand(t["args"][2]))
+                            entries.append((canon(strip(tr.operand(t["args"][1]))), canon(strip(tr.operand(t["args"][2]))), "cast(" in raw or " as " in raw.replace("arg:self as ", "")))
                     ends = [x for x in region if body.term(x)["k"] == "call" and is_callee(body.term(x), r"SerializeMap::end$")]
                     tags[g.variant] = (entries, bool(ends))
                 break
@@ -63,13 +64,13 @@ def run(prog, rep):
                 entries, ended = tags.get(v, ([], False))
                 key = "Value::%s" % v
                 typ = [e for e in entries if e[0] == '"type"']
-                rest = [e for e in entries if e[0] != '"type"']
+                rest = [e for e in entries if e[0] != '"type"']     # (key, value, value is converted)
                 ok = len(typ) == 1 and re.match(r'^"\w+"$', typ[0][1] or "") is not None and ended and entries and entries[0][0] == '"type"'
                 tag = typ[0][1] if typ else None
                 if v == "Null":
                     ok = ok and not rest
                 else:
-                    ok = ok and len(rest) == 1 and re.search(r"\(\*arg:self as %s\)\.0" % v, rest[0][1]) is not None
+                    ok = ok and len(rest) == 1 and re.search(r"\(\*arg:self as %s\)\.0" % v, rest[0][1]) is not None and not rest[0][2]
                 rep.check(ok, "E8.j", key, f.loc(), "type=%s%s" % (tag, "" if v == "Null" else ", %s=payload" % rest[0][0] if rest else ""),
                           "JSON encoding of Value::%s is not {type: <tag>%s}: entries %s, map closed=%s" % (v, "" if v == "Null" else ", <payload of the variant>", entries, ended))
                 if tag:
@@ -192,6 +193,16 @@ def run(prog, rep):
                         good += 1
                 if trait == "std::fmt::Debug" and tn in ("std::string::String", "str") and kind == "new_display":
                     bad.append(sp_str(t["sp"]))
+        if trait == "std::fmt::Debug":
+            sdbg = 0
+            for b, t in f.body.calls():
+                if is_callee(t, r"fmt::rt::Argument::<'_>::new_debug$"):
+                    fr = callee_fn(t)
+                    at = f.crate.peel(fr["targs"][0]) if fr.get("targs") else None
+                    if at is not None and (at.path == "std::string::String" or at.s in ("str", "std::string::String")):
+                        sdbg += 1
+            rep.check(sdbg == 1, "E8.d", "Debug for Value :: string escaping", f.loc(), "a string is rendered with the standard Debug escaping of str (quotes, backslash, control characters)",
+                      "Debug for Value no longer renders strings through str's Debug (%d such calls): distinct strings can print alike" % sdbg)
         rep.check(not bad and good >= 4, "E8.d", "%s for Value :: nested formatting" % trait.rsplit("::", 1)[-1], f.loc(), "%d nested values formatted with %s" % (good, inner_ok),
                   "nested values are formatted with the other trait at %s (a quoted string would lose its quotes / gain them)" % bad)
     # ---- pretty print
